@@ -63,14 +63,18 @@ func (h *hist) note(f string, v ...any) {
 	h.mu.Unlock()
 }
 
-// message encoding: 3-byte control change, channel = sender, 14-bit sequence number
-func encMsg(sender, seq int) []byte { return []byte{0xB0 | byte(sender&15), byte(seq >> 7 & 127), byte(seq & 127)} }
-func msgID(sender, seq int) int   { return sender<<14 | seq }
+// message encoding: a control-change status carrying the sender in its channel, followed by a
+// 28-bit sequence number in four 7-bit bytes (the driver passes the bytes of a line through as they
+// are). 28 bits cannot wrap within a history; ids are unique per (sender, sequence number).
+func encMsg(sender, seq int) []byte {
+	return []byte{0xB0 | byte(sender&15), byte(seq >> 21 & 127), byte(seq >> 14 & 127), byte(seq >> 7 & 127), byte(seq & 127)}
+}
+func msgID(sender, seq int) int { return sender<<28 | seq&(1<<28-1) }
 func decMsg(b []byte) (id int, ok bool) {
-	if len(b) != 3 || b[0]&0xF0 != 0xB0 || b[1] > 127 || b[2] > 127 {
+	if len(b) != 5 || b[0]&0xF0 != 0xB0 || b[1] > 127 || b[2] > 127 || b[3] > 127 || b[4] > 127 {
 		return 0, false
 	}
-	return int(b[0]&15)<<14 | int(b[1])<<7 | int(b[2]), true
+	return int(b[0]&15)<<28 | int(b[1])<<21 | int(b[2])<<14 | int(b[3])<<7 | int(b[4]), true
 }
 
 const (
@@ -534,7 +538,7 @@ func checkMidicatHistory(c *mon.Ctx, h *hist, desc map[string]any, nports int) {
 		}
 		k := [2]int{d.port, s.sender}
 		if last, ok := lastSeq[k]; ok && d.id < last {
-			violate("order", fmt.Sprintf("sender %d on port %d: message %d delivered after message %d", s.sender, d.port, d.id&0x3FFF, last&0x3FFF), "sending order", nil)
+			violate("order", fmt.Sprintf("sender %d on port %d: message %d delivered after message %d", s.sender, d.port, d.id&(1<<28-1), last&(1<<28-1)), "sending order", nil)
 			return
 		}
 		lastSeq[k] = d.id
@@ -554,7 +558,7 @@ func checkMidicatHistory(c *mon.Ctx, h *hist, desc map[string]any, nports int) {
 			if s.port == sn.port && s.window == sn.window && s.sender != senderProbe && s.ret < sn.call {
 				c.Count("mc_exactly_once_checks", 1)
 				if seen[s.id] != 1 {
-					violate("lost", fmt.Sprintf("message %d of sender %d (window %d, port %d) was sent before the sentinel that arrived, but was delivered %d times", s.id&0x3FFF, s.sender, s.window, s.port, seen[s.id]), 1, seen[s.id])
+					violate("lost", fmt.Sprintf("message %d of sender %d (window %d, port %d) was sent before the sentinel that arrived, but was delivered %d times", s.id&(1<<28-1), s.sender, s.window, s.port, seen[s.id]), 1, seen[s.id])
 					return
 				}
 			}
@@ -624,7 +628,7 @@ func checkMidicatHistory(c *mon.Ctx, h *hist, desc map[string]any, nports int) {
 		for _, x := range prs {
 			// x is delivered after everything before it: none of those may have been enqueued entirely after x
 			if x.enqRet < maxCallSoFar {
-				violate("fifo-order", fmt.Sprintf("window %d port %d: message %d was enqueued (Send returned at stamp %d) before Send of message %d was even called (stamp %d), but was delivered after it", k[0], k[1], x.id&0x3FFF, x.enqRet, maxID&0x3FFF, maxCallSoFar), "FIFO", nil)
+				violate("fifo-order", fmt.Sprintf("window %d port %d: message %d was enqueued (Send returned at stamp %d) before Send of message %d was even called (stamp %d), but was delivered after it", k[0], k[1], x.id&(1<<28-1), x.enqRet, maxID&(1<<28-1), maxCallSoFar), "FIFO", nil)
 				return
 			}
 			if x.enqCall > maxCallSoFar {
